@@ -2,6 +2,7 @@
 # usage: tools/try_seed.sh <patch.diff> <Cxx> [tier]   - applies a seeded change to a scratch worktree of /repo HEAD, confirms that it
 # builds and passes the repository's own tests, then runs ./check Cxx against it (VERIF_REPO) and prints the verdict.
 patch=$(readlink -f "$1"); chk=$2; tier=${3:-quick}
+ROOT=$(cd "$(dirname "$0")/.." && pwd)
 export GOFLAGS=-mod=mod GOPROXY=off GOSUMDB=off GOTOOLCHAIN=local
 wt=$(mktemp -d /tmp/seedwt.XXXXXX); rmdir "$wt"
 git -C /repo worktree prune
@@ -11,12 +12,12 @@ cd "$wt" && git apply "$patch" || { echo "SEED: patch does not apply"; exit 8; }
 go build ./... 2>&1 | tail -3
 t=$(go test -vet=off -count=1 ./... 2>&1 | grep -v "^ok\|no test files" | head -5)
 if [ -n "$t" ]; then echo "SEED: existing tests FAIL with the change:"; echo "$t"; else echo "SEED: builds, existing tests pass"; fi
-cd "$(dirname "$0")/.." && VERIF_REPO="$wt" ./check "$chk" --tier "$tier" > "/tmp/seedrun.$chk.out" 2>&1
+cd "$ROOT" && VERIF_REPO="$wt" ./check "$chk" --tier "$tier" > "/tmp/seedrun.$chk.out" 2>&1
 rc=$?
 grep -c "^VIOLATION" "/tmp/seedrun.$chk.out" | sed 's/^/SEED: VIOLATION lines: /'
 grep "signature:" "/tmp/seedrun.$chk.out" | head -6
 tail -1 "/tmp/seedrun.$chk.out"
 echo "SEED: check exit $rc"
 # the evidence file was overwritten by this run against a changed tree: restore the committed one
-git -C "$(dirname "$0")/.." checkout -- "evidence/$chk.json" 2>/dev/null
+git -C "$ROOT" checkout -- "evidence/$chk.json" 2>/dev/null
 exit 0
